@@ -577,12 +577,33 @@ def stepTVer (key adv impl : String) : String :=
     | none => "bad-case"
   | _, _ => "bad-args"
 
+
+/-- struct fields whose tag says `compact` for versions at which the MESSAGE is not flexible (no tagged-field marker in its root
+struct yet).  The codec never reads the `compact` option (compactness follows the message's flexibility), so such a tag has no
+effect on the wire — it is misleading metadata; listed for the audit. -/
+def flexFromOf (m : RawMsg) : Int :=
+  match findStruct m.structs m.root >>= versionRange with
+  | some (_, _, fl) => fl
+  | none => -1
+
+def compactOffenders (m : RawMsg) (s : RawStruct) (f : RawField) : List String :=
+  let ff : Int := flexFromOf m
+  match fieldAlts f with
+  | some alts => alts.filterMap fun (a : STag) =>
+      if a.compact && (decide (ff < 0) || decide (a.minV < ff)) then
+        some s!"{m.pkg}.{s.name}.{f.name}:v{a.minV}-v{a.maxV}(flexible-from:{ff})" else none
+  | none => []
+
+def compactLint : List String :=
+  Gen.schemas.flatMap fun m => m.structs.flatMap fun s => s.fields.flatMap fun f => compactOffenders m s f
+
 def step (line : String) : String :=
   match line.splitOn " => " with
   | [req, impl] =>
     match words req with
     | ["mal", pi, ver, hexes] => if pi.startsWith "P" then stepPipe pi ver hexes impl else stepMain line
     | ["legread", i, ver, _name, body] => stepLegRead i ver body impl
+    | ["lint", "compact"] => answer (",".intercalate compactLint) true
     | ["selver", i, b0, b1] => stepSelVer i b0 b1 impl
     | ["tver", k, a] => stepTVer k a impl
     | "marshal" :: j :: ver :: rest => stepMarshal "marshal" j ver rest impl
